@@ -640,6 +640,28 @@ def observe(cfg, want):
             obs["upmean_again"] = face_nested(P.upwindMean(pu, c.u), d)      # same input object, second call
         if "geomean" in W:
             obs["geomean"] = face_nested(P.geometricMean(newphi()), d)
+        if "meanflags" in W:
+            # degree-1 homogeneity over 30 decades (floating point, relative 1e-9) and independence of the input's
+            # dtype / memory layout (relative 1e-12: integer powers may differ from float powers in the last bit)
+            fns = {"linear": P.linearMean, "arithmetic": P.arithmeticMean, "harmonic": P.harmonicMean,
+                   "geometric": P.geometricMean, "upwind": lambda v: P.upwindMean(v, c.u)}
+            comps = lambda F: np.concatenate([np.asarray(x, dtype=float).ravel() for x in (F._xvalue, F._yvalue, F._zvalue)[:d]])
+            base_full = np.abs(c.phi_full) if cfg.get("data") != "arbitrary" else c.phi_full
+            homog, forms = {}, {}
+            for nm, fn in fns.items():
+                if nm == "geometric" and np.any(base_full < 0):
+                    continue
+                ref = comps(fn(P.CellVariable(c.m, base_full.copy())))
+                ok = True
+                for K in (1e-18, 1e-6, 1e12):
+                    got = comps(fn(P.CellVariable(c.m, K * base_full)))
+                    ok = ok and bool(np.all(np.abs(got - K * ref) <= 1e-9 * K * np.maximum(np.abs(ref), 1e-300))
+                                     and np.all((got == 0) == (ref == 0)))
+                homog[nm] = ok
+                alt = {"int": base_full.astype(np.int64), "fortran": np.asfortranarray(base_full.copy())}
+                forms[nm] = all(bool(np.allclose(comps(fn(P.CellVariable(c.m, arr))), ref, rtol=1e-12, atol=0.0))
+                                for arr in alt.values())
+            obs["meanflags"] = {"homogeneous": homog, "forms": forms}
         if "constmeans" in W:
             cv = float(dec(cfg["const"])) if dec(cfg["const"]) > 0 else 2.0
             cphi = P.CellVariable(c.m, cv * np.ones([n + 2 for n in c.dims]))
